@@ -41,7 +41,7 @@ def regenerate_src():
     rc, out = sh([PY, os.path.join(VERIF, 'tools', 'py2lean.py'), '--repo', REPO])
     return rc == 0, out.strip()
 
-SRC_OPS = {'res', 'des', 'ser', 'children', 'parent', 'res0', 'first', 'stride', 'ncells', 'nchildren', 'compact', 'uncompact', 'key'}
+SRC_OPS = {'res', 'des', 'ser', 'children', 'parent', 'res0', 'first', 'stride', 'ncells', 'nchildren', 'compact', 'uncompact', 'key', 'hex', 'unhex'}
 SRCDRIVER = os.path.join(LEAN, '.lake', 'build', 'bin', 'srcdriver')
 
 def src_correspondence(ops, tag='src', cap=25000):
